@@ -19,7 +19,7 @@ EXPLANATION = (
     'outcome (Infeasible, Unbounded, Undefined, Not Solved; variable values left untouched or arbitrary; with a time limit also "stopped at the limit with an '
     'incumbent, reported Optimal"), transient or persistent, single faults at every solve position (incl. the per-rank solves inside generous/greedy) and '
     'pairs of faults. The wall clock is a symbolic non-decreasing clock (a limit stop consumes more than the limit), the time limit is None or a symbolic '
-    'positive real (quotas concrete). On every path z3 proves under the path condition: no matching line and no statistics line; "Timeout" is shown iff a '
+    'non-negative real (quotas concrete). On every path z3 proves under the path condition: no matching line and no statistics line; "Timeout" is shown iff a '
     'limit is set and the run exceeded it or was left Not Solved, otherwise the FIRST non-optimal status is shown.')
 ASSUMPTIONS = ['back end contract for faults: any of the five PuLP statuses at any solve; values after a failed solve are untouched or arbitrary',
                'a time-limit stop consumes more wall time than the limit; clock readings are non-decreasing reals',
@@ -120,7 +120,7 @@ def run_case(I, flags, seq, limit, schedule, persistent, values_mode, getter):
         tl = None
         if limit:
             tl = e.fresh_real('limit')
-            e.assume(tl > 0)
+            e.assume(tl >= 0)     # a limit of 0 (or 0.0) is a limit that was set
         clk = Clock()
         ns = repo.load('shim')
         # quotas are concrete here: the property is about solver outcomes and the clock, and symbolic quotas would only
@@ -218,8 +218,17 @@ def run_task(task):
                     claims.append(('first non-optimal status is shown', z3.BoolVal(status_line == first_status)))
             ok_all = True
             for name, c in claims:
-                r, mdl = S.holds(p.pc, c)
-                res['queries'] += 1
+                if tl is None:
+                    r, mdl = S.holds(p.pc, c)
+                    res['queries'] += 1
+                else:
+                    # limits of at least a second first (their counterexamples replay without real CBC being cut short), then
+                    # the smaller ones, then the limit 0
+                    for dom in (tl.t >= 1, z3.And(tl.t > 0, tl.t < 1), tl.t == 0):
+                        r, mdl = S.holds(list(p.pc) + [dom], c)
+                        res['queries'] += 1
+                        if r != 'unsat':
+                            break
                 if r == 'unknown':
                     res['unknown'] += 1
                     ok_all = False
@@ -227,6 +236,10 @@ def run_task(task):
                     ok_all = False
                     d2 = dict(data)
                     d2['inst'] = rp.inst_to_data(rp.concretize_inst(run.inst, mdl))
+                    if tl is not None and mdl is not None:
+                        # the limit and the clock readings of the counter-model: the replay scripts the clock with them
+                        d2['tl'] = _num(mdl, tl.t)
+                        d2['clock'] = [_num(mdl, S.term_of(t)) for t in p.notes['clock']]
                     res['cex'].append({'tag': 'text/%s/%s/%s' % (name.split(' (')[0], 'inner' if len(faults) and _inner(snaps, faults[0][0]) else 'outer',
                                                                  'limit-stop' if any(f == 'LimitStop' for _, f in faults) else faults[0][1].replace(' ', '')),
                                        'what': '%s; schedule %s persistent %s' % (name, schedule, persistent), 'data': d2})
@@ -244,6 +257,46 @@ def _inner(snaps, k):
     return 'rank' in nm
 
 
+def _num(mdl, t):
+    v = mdl.eval(t, model_completion=True)
+    try:
+        f = v.as_fraction()
+        return float(f)
+    except Exception:  # noqa
+        return float(v.as_decimal(12).rstrip('?'))
+
+
+class ScriptedClock:
+    """replay clock: the readings of the counter-model, as real datetime objects (module stand-in for `datetime` / `time`)"""
+
+    def __init__(self, readings):
+        import datetime as _dt
+        self._dt = _dt
+        self.base = _dt.datetime(2020, 1, 1)
+        self.readings = list(readings)
+        self.read = []
+        self.datetime = self
+        self.timedelta = _dt.timedelta
+
+    def _next(self):
+        v = self.readings[len(self.read)] if len(self.read) < len(self.readings) else (self.read[-1] if self.read else 0.0)
+        if self.read and v < self.read[-1]:
+            v = self.read[-1]
+        self.read.append(v)
+        return v
+
+    def now(self, tz=None):
+        return self.base + self._dt.timedelta(seconds=self._next())
+
+    def time(self):
+        return self._next()
+
+    perf_counter = monotonic = time
+
+    def __getattr__(self, name):
+        return getattr(self.__dict__['_dt'], name)
+
+
 def replay(cex):
     """scripted back end on real PuLP: real CBC except at the faulty solves"""
     d = cex['data']
@@ -258,6 +311,11 @@ def replay(cex):
     schedule = {int(k): v for k, v in d['schedule'].items()}
     persistent = d['persistent']
     limit = (0.05 if 'LimitStop' in list(schedule.values()) else 5.0) if d['limit'] else None
+    clock = None
+    if d.get('clock') and d.get('tl') is not None:
+        # the wall clock is scripted with the readings of the counter-model (like the solver outcomes)
+        limit = d['tl']
+        clock = ScriptedClock(d['clock'])
     orig = pulp.LpProblem.solve
     state = {'n': 0, 'faults': []}
 
@@ -272,7 +330,8 @@ def replay(cex):
         state['faults'].append(kind)
         if kind == 'LimitStop':
             st = orig(self, solver, **kw)
-            time.sleep(limit + 0.03)
+            if clock is None:
+                time.sleep(limit + 0.03)
             return st
         self.status = KINDS[kind]
         return self.status
@@ -283,6 +342,7 @@ def replay(cex):
             f.write(spec.inst_to_text(I))
         argv = ['-f', path, '-na', str(I.na)] + ['-' + f for f in d['flags']] + e2.opts_to_argv([(c, list(a)) for c, a in d['seq']])
         pulp.LpProblem.solve = scripted
+        unclock = e2.install_shadows_clock(ns, clock) if clock is not None else (lambda: None)
         try:
             s = ns.solver.Solver(argv)
             s.solve(msg=False, timeLimit=limit)
@@ -291,6 +351,7 @@ def replay(cex):
             return True, 'argv %s schedule %s: raised %r' % (argv[2:], schedule, e)
         finally:
             pulp.LpProblem.solve = orig
+            unclock()
     finally:
         shutil.rmtree(tmp, ignore_errors=True)
     if not state['faults']:
@@ -305,6 +366,12 @@ def replay(cex):
         bad = True
     if limit is not None and (first == 'Not Solved' or 'LimitStop' in state['faults']) and not timeout:
         bad = True
+    if clock is not None:
+        total = (clock.read[-1] - clock.read[0]) if clock.read else 0.0
+        must = total > limit or first == 'Not Solved'
+        bad = bool(shown) or (timeout != must) or (not timeout and first is not None and status_line != first)
+        return bad, 'instance:\n%sargv %s; time limit %s; injected %s (persistent %s); scripted clock readings %s; result shows status %r, Timeout %s (expected %s), statistic lines %s' % (
+            spec.inst_to_text(I, trailer=False), argv[2:], limit, schedule, persistent, clock.read, status_line, timeout, must, shown)
     if timeout and (limit is None or (first != 'Not Solved' and 'LimitStop' not in state['faults'])):
         bad = True     # the 5 s limit was not exceeded by this millisecond run
     return bad, 'instance:\n%sargv %s; injected %s (persistent %s); result shows status %r, Timeout %s, statistic lines %s' % (
